@@ -849,7 +849,17 @@ impl<'a> Exec<'a> {
                 }
                 let flagged = matches!(bad, Some(k) if k != "none");
                 let poisoned_now = flagged || unres || self.poisoned.contains(&parent);
-                let blk = self.builder.as_mut().unwrap().build(&ph, &spec);
+                let blk = if unres {
+                    // the chain builder tries (and fails, inside catch_unwind) to attach the block to its
+                    // branch store: keep that expected panic message off stderr
+                    let prev = std::panic::take_hook();
+                    std::panic::set_hook(Box::new(|_| {}));
+                    let b = self.builder.as_mut().unwrap().build(&ph, &spec);
+                    std::panic::set_hook(prev);
+                    b
+                } else {
+                    self.builder.as_mut().unwrap().build(&ph, &spec)
+                };
                 let e = blk.epoch();
                 assert_eq!(epf, format!("{}.{}.{}", e.number(), e.index(), e.length()), "block line epoch differs from the built block");
                 assert_eq!(cb as usize, blk.transactions()[0].outputs().len(), "block line cb differs from the built block");
@@ -909,7 +919,7 @@ impl<'a> Exec<'a> {
                             self.out.oracle_fail(&format!("failed-reorg-changed-column-{}", c), &format!("block {} refused: {} rows before, {} rows after", id, a.len(), b.len()));
                         }
                     }
-                    let depth = old_tip.number() - common_before;
+                    let depth = old_tip.number().saturating_sub(common_before);
                     self.out.count(&format!("failed_reorg_depth_{:02}", depth));
                     if reattached_verified > 0 {
                         self.out.count("failed_reorg_reattaching_verified_blocks");
@@ -927,7 +937,7 @@ impl<'a> Exec<'a> {
                 let new_tip = self.node.as_ref().unwrap().tip();
                 if new_tip.hash() == blk.hash() && blk.parent_hash() != old_tip.hash() {
                     // depth of the reorg = number of detached blocks
-                    let depth = old_tip.number() - common_before;
+                    let depth = old_tip.number().saturating_sub(common_before);
                     self.reorg_depths.insert(depth);
                     self.out.count("reorg");
                     self.out.count(&format!("reorg_depth_{:02}", depth));
